@@ -108,7 +108,7 @@ EndFails ==
     \cup C(T.havePrev /\ ~T.sameAsPrev, "not_repeatable")
     \cup C(T.tag = "exact_start" /\ ~(T.ret = "success" /\ T.retNi = 0 /\ T.solUnchanged), "exact_start")
     \cup C(T.tag = "zero_rhs" /\ ~(T.ret = "success" /\ T.retNi = 0 /\ T.solZero), "zero_rhs")
-    \cup C(T.scen \in {"converge", "lucky", "breakdown"} /\ InScope /\ ~(T.ret = "success" /\ T.errOk), "no_convergence")
+    \cup C(T.scen \in {"converge", "lucky", "breakdown", "update"} /\ InScope /\ ~(T.ret = "success" /\ T.errOk), "no_convergence")
 
 Finish ==
   /\ ~done /\ i = Len(T.ev)
@@ -119,5 +119,5 @@ Next == Event \/ Finish
 Spec == Init /\ [][Next]_vars
 
 \* one verdict per trace
-Verdict == done => PrintT(ToJson([trace |-> k, events |-> i, fails |-> fails, inscope |-> (T.scen \in {"converge", "lucky", "breakdown"} /\ InScope)]))
+Verdict == done => PrintT(ToJson([trace |-> k, events |-> i, fails |-> fails, inscope |-> (T.scen \in {"converge", "lucky", "breakdown", "update"} /\ InScope)]))
 =============================================================================
